@@ -18,7 +18,7 @@ package main
 //@   site github.com/gorilla/mux.NewRouter requires[C03] hostWrapped: conf.Caps.TokenAuth ==> fnIs(gw.CheckHost, "security.CheckSession$1")
 //@   site github.com/gorilla/mux.NewRouter requires[C03] hostInner: conf.Caps.TokenAuth ==> fnIs(fnBindCell(gw.CheckHost, 0, protocol.CheckHostFunc), "security.CheckHost")
 //@   site github.com/gorilla/mux.NewRouter requires[C04] verifyClientIp: security.VerifyClientIP == conf.Security.VerifyClientIp
-//@   site github.com/gorilla/mux.NewRouter requires[C10] buffers: gw.ReceiveBuf == conf.Server.ReceiveBuf && gw.SendBuf == conf.Server.SendBuf
+//@   site github.com/gorilla/mux.NewRouter requires buffers: gw.ReceiveBuf == conf.Server.ReceiveBuf && gw.SendBuf == conf.Server.SendBuf
 
 // the route table of the gateway endpoint (C05): the bare tunnel handler is
 // registered only when OpenID is the only mechanism; every other registration is
